@@ -14,6 +14,7 @@ import (
 	"context"
 	"errors"
 	"fmt"
+	"io"
 	"time"
 
 	"github.com/fogfish/golem/pipe/v2"
@@ -57,6 +58,9 @@ var errFail = errors.New("fail")
 // the user function that happens to be such an error is a fault like any other while the pipeline's own context is live.
 func Fail(x int) error {
 	switch {
+	case x == 1 || x == 7:
+		// a composite error (several causes joined): still ONE error of ONE element
+		return errors.Join(fmt.Errorf("fail%d", x), io.ErrUnexpectedEOF, fmt.Errorf("a third cause of fail%d", x))
 	case x%2 == 0:
 		return TrailErr{Msg: fmt.Sprintf("fail%d", x), Trail: []int{x}, Cause: context.Canceled}
 	case x%3 == 0:
